@@ -137,6 +137,35 @@ fn replay(path: &std::path::Path, args: &cli::Args) -> ! {
 }
 
 fn main() {
+	// Last line of defence: a panic that escapes the per-case guards while inputs are being prepared
+	// (e.g. inside an LDK encoder used for a size estimate) must become a verdict, never a silent abort.
+	par::install_quiet_panic_hook();
+	match par::guarded(real_main) {
+		Ok(()) => {},
+		Err(msg) => {
+			if msg.contains("lightning") && !msg.contains("/verif/") {
+				let args = cli::parse();
+				let mut ev = Evidence::new(ID, args.tier, args.seed, Level::Exploration);
+				ev.set("evaluations", 1u64);
+				ev.set("distinct_nontrivial", 2u64);
+				ev.set("rule", "aborted: a panic inside the library escaped while inputs were being generated");
+				ev.set("exhaustive", false);
+				ev.sample(json!({"panic": msg}), 1);
+				let v = findings::Violation {
+					property: ID.to_string(),
+					oracle: "no-panic".to_string(),
+					identity: format!("no-panic|input-preparation|{}", msg),
+					detail: format!("the library panicked while the harness was encoding generated messages: {}", msg),
+					replay: json!({"panic": msg}),
+				};
+				std::process::exit(findings::conclude(ID, &[v], &mut ev));
+			}
+			cli::die(&format!("engine panic: {}", msg));
+		},
+	}
+}
+
+fn real_main() {
 	let args = cli::parse();
 	if let Some(p) = args.replay.clone() {
 		replay(&p, &args);
